@@ -18,6 +18,10 @@ fn flag(args: &[String], name: &str) -> bool {
     args.iter().any(|a| a == name)
 }
 
+static CASE_START_MS: std::sync::atomic::AtomicU64 = std::sync::atomic::AtomicU64::new(0);
+static CASE_CURRENT: std::sync::atomic::AtomicU64 = std::sync::atomic::AtomicU64::new(0);
+static WATCH_EPOCH: std::sync::OnceLock<Instant> = std::sync::OnceLock::new();
+
 struct CaseRun {
     outcome: Outcome,
     ctx: Rc<RefCell<Ctx>>,
@@ -89,6 +93,26 @@ fn cmd_run(args: &[String], reg: &[ScenarioDef]) -> i32 {
     let mut trace_file = if trace { Some(std::fs::File::create(format!("{}.trace", out)).unwrap()) } else { None };
 
     let start = Instant::now();
+    // wall-clock watchdog: a case that runs longer than the limit is a deterministic infinite loop that neither
+    // touches the transport (step budget) nor allocates (allocation meter). It never influences a schedule: it only
+    // kills the process, after leaving the case number for the supervisor.
+    let limit_ms: u64 = arg(args, "--case-timeout-ms").unwrap_or("20000").parse().unwrap();
+    {
+        let hang_path = format!("{}.hang", out);
+        std::thread::spawn(move || loop {
+            std::thread::sleep(std::time::Duration::from_millis(200));
+            let s = CASE_START_MS.load(std::sync::atomic::Ordering::Relaxed);
+            if s != 0 {
+                let now = WATCH_EPOCH.get_or_init(Instant::now).elapsed().as_millis() as u64 + 1;
+                if now > s + limit_ms {
+                    let case = CASE_CURRENT.load(std::sync::atomic::Ordering::Relaxed);
+                    let _ = std::fs::write(&hang_path, format!("{}", case));
+                    eprintln!("SIM-WATCHDOG case {} exceeded {} ms", case, limit_ms);
+                    unsafe { libc::abort() };
+                }
+            }
+        });
+    }
     let mut evaluations = 0u64;
     let mut nontrivial = 0u64;
     let mut keys: HashSet<u64> = HashSet::new();
@@ -114,11 +138,14 @@ fn cmd_run(args: &[String], reg: &[ScenarioDef]) -> i32 {
             writeln!(f, "BEGIN {}", case).unwrap();
             f.flush().unwrap();
         }
+        CASE_CURRENT.store(case, std::sync::atomic::Ordering::Relaxed);
+        CASE_START_MS.store(WATCH_EPOCH.get_or_init(Instant::now).elapsed().as_millis() as u64 + 1, std::sync::atomic::Ordering::Relaxed);
         let mut ctx = Ctx::generate(seed, def.name, case);
         if samples.len() < samples_wanted {
             ctx.log_enabled = true;
         }
         let run = run_case(def, ctx, case, thorough);
+        CASE_START_MS.store(0, std::sync::atomic::Ordering::Relaxed);
         evaluations += 1;
         let ctx = run.ctx.borrow();
         steps += ctx.steps;
